@@ -480,6 +480,21 @@ def suite_reopen(tier, seed, mc_results=()):
             post = gen_seq.churn_driver(rng, "y", [], rounds=rng.randint(1, 3))["ops"]
             ops += post
         drivers.append({"id": "reopen:%d" % i, "cfg": cfg, "ops": ops})
+    # a capacity on reopen that is smaller than the file (but not below the stored cursor): outside what C05 quantifies over
+    # ("same, larger, absent"), so the file length is not judged there -- the implementation-level model still says what the
+    # later sessions must see (the mapping covers the requested bytes, the file keeps its length)
+    for kind in ["opt", "pes", "none"]:
+        for (v1, v2) in [("map_mut", "map_copy"), ("map_copy", "map_mut"), ("map_mut", "map"), ("map_mut", "map_mut")]:
+            for off in [0, 4096]:
+                cfg = {"arenas": [["sync", "file"], ["unsync", "file"]], "cap": 1024, "reserved": [0, 5][off == 0], "kind": kind, "minseg": 8,
+                       "unify": True, "maxalign": 8, "magic": 2, "offset": off, "compare": [[1, 2, "C11", False]]}
+                ops = [AB(40), AB(24), AB(16), {"k": "drop", "h": 2},
+                       {"k": "reopen", "variant": v1, "cap": 512, "flush": False, "create": False}, AB(16), AB(300),
+                       {"k": "reopen", "variant": v2, "cap": 640, "flush": True, "create": False}, AB(8),
+                       {"k": "reopen", "variant": "map_mut", "cap": 0, "flush": False, "create": False}, AB(24), AB(700),
+                       {"k": "reopen", "variant": "map", "cap": 0, "flush": False, "create": False},
+                       {"k": "reopen", "variant": "map_mut", "cap": 0, "flush": False, "create": False}, AB(8)]
+                drivers.append({"id": "reopen:smaller:%s:%s:%s:%d" % (kind, v1, v2, off), "cfg": cfg, "ops": ops})
     return drivers
 
 
